@@ -135,6 +135,8 @@ Definition style_quoted (s : N) : bool :=
 
 Section Fmt.
   Variable nonstr : string -> bool.
+  (* the value, read as an unquoted YAML 1.1 scalar, is of the OpenAPI type t (compatibility.go valueHasType) *)
+  Variable hastype : string -> string -> bool.
 
   (* yaml.FormatNonStringStyle(node, schema) on a scalar node *)
   Definition fmt_nonstring_tail (t : string) (h : hdr) : hdr :=
@@ -151,7 +153,9 @@ Section Fmt.
         else if String.eqb t "string" && negb (String.eqb format "int-or-string") then
                fmt_nonstring_tail t (if style_quoted (h_style h) then h else set_style h style_double)
         else if String.eqb t "boolean" || String.eqb t "integer" || String.eqb t "number" then
-               fmt_nonstring_tail t (if style_quoted (h_style h) then set_style h 0%N else h)
+               (* a value that is not of the schema's type is left exactly as written *)
+               if negb (hastype v t) then h
+               else fmt_nonstring_tail t (if style_quoted (h_style h) then set_style h 0%N else h)
         else h
     | _ => h
     end.
@@ -178,8 +182,15 @@ Section Fmt.
         end
     end.
 
+  (* the sort key of an element: its Value in a primitive list; in a keyed list the value of its
+     sort field when the element is a mapping, "" for any other element (a scalar, an alias, a nested
+     sequence: `if s.Content[i].Kind != yaml.MappingNode { break }`) *)
   Definition seq_key (f : string) (e : cnode) : res string :=
-    if String.eqb f "" then Ok (cvalue e) else scan_field f (content e) "".
+    if String.eqb f "" then Ok (cvalue e)
+    else match e with
+         | CMap _ _ => scan_field f (content e) ""
+         | _ => Ok ""
+         end.
 
   (* every element takes part in at least one Less call as soon as there are two of them *)
   Definition seq_keys (f : string) (es : list cnode) : res (list string) :=
@@ -423,32 +434,6 @@ Fixpoint cnode_eqb (a b : cnode) {struct a} : bool :=
 
 (* ---------- predicates used as hypotheses of the theorems (and as domain tests) ---------- *)
 
-Definition is_seq_node (n : cnode) : bool := match n with CSeq _ _ => true | _ => false end.
-
-(* no sequence is a direct element of a KEYED whitelisted list (one sorted by a field of its elements) *)
-Fixpoint keyed_ok (kind api : string) (path : string) (n : cnode) {struct n} : bool :=
-  match n with
-  | CScalar _ _ | CAlias _ _ => true
-  | CMap _ kvs =>
-      (fix go (l : list (cnode * cnode)) : bool :=
-         match l with
-         | [] => true
-         | kv :: t =>
-             keyed_ok kind api path (fst kv) &&
-             keyed_ok kind api (path ++ "." ++ cvalue (fst kv)) (snd kv) && go t
-         end) kvs
-  | CSeq _ es =>
-      match sort_field kind api path with
-      | Some f => String.eqb f "" || forallb (fun e => negb (is_seq_node e)) es
-      | None => true
-      end &&
-      (fix go (l : list cnode) : bool :=
-         match l with
-         | [] => true
-         | e :: t => keyed_ok kind api path e && go t
-         end) es
-  end.
-
 Fixpoint nodup_strs (l : list string) : bool :=
   match l with
   | [] => true
@@ -535,8 +520,62 @@ Fixpoint anchors_scan (n : cnode) (seen : list string) {struct n} : option (list
          end) es seen'
   end.
 
+(* the alias-free fragment: no AliasNode anywhere (anchors may be present) *)
+Fixpoint alias_free (n : cnode) : bool :=
+  match n with
+  | CScalar _ _ => true
+  | CAlias _ _ => false
+  | CMap _ kvs =>
+      (fix go (l : list (cnode * cnode)) : bool :=
+         match l with
+         | [] => true
+         | kv :: t => alias_free (fst kv) && alias_free (snd kv) && go t
+         end) kvs
+  | CSeq _ es =>
+      (fix go (l : list cnode) : bool :=
+         match l with
+         | [] => true
+         | e :: t => alias_free e && go t
+         end) es
+  end.
+
 Definition anchors_ok (n : cnode) : bool :=
   match anchors_scan n [] with Some _ => true | None => false end.
+
+(* ---------- canonical order (what a formatted document looks like) ---------- *)
+
+(* no later entry is smaller than an earlier one *)
+Fixpoint sortedb {A} (lt : A -> A -> bool) (l : list A) : bool :=
+  match l with
+  | [] => true
+  | x :: t => forallb (fun y => negb (lt y x)) t && sortedb lt t
+  end.
+
+(* every mapping is in field order (sortedMapContents.Less) and every whitelisted list is ordered by
+   the sort keys of its elements (sortedSeqContents.Less) *)
+Fixpoint canon_sorted (kind api : string) (path : string) (n : cnode) {struct n} : bool :=
+  match n with
+  | CScalar _ _ | CAlias _ _ => true
+  | CMap _ kvs =>
+      sortedb less_key (key_values kvs) &&
+      (fix go (l : list (cnode * cnode)) : bool :=
+         match l with
+         | [] => true
+         | kv :: t =>
+             canon_sorted kind api path (fst kv) &&
+             canon_sorted kind api (path ++ "." ++ cvalue (fst kv)) (snd kv) && go t
+         end) kvs
+  | CSeq _ es =>
+      match sort_field kind api path with
+      | Some f => match mapM (seq_key f) es with Ok K => sortedb String.ltb K | _ => false end
+      | None => true
+      end &&
+      (fix go (l : list cnode) : bool :=
+         match l with
+         | [] => true
+         | e :: t => canon_sorted kind api path e && go t
+         end) es
+  end.
 
 (* ---------- induction principle for the nested inductive ---------- *)
 Section CnodeInd.
